@@ -364,3 +364,17 @@ _ROUND5 = {
 }
 for _k, _v in _ROUND5.items():
     EXTRA[_k] = (EXTRA[_k] + " " + _v) if _k in EXTRA else _v
+
+
+# added after the sixth round of seeded changes (DESIGN.md section 0.6)
+_ROUND6 = {
+    "C03": "Hand family for the static analysis of partials that load partials (render -> include, include -> render, extends with includes in blocks, macros): analyze and analyze_async must agree on which scope the inner partial is analysed in.",
+    "C04": "Half of the cases supply a catalog whose entries are plain strings (a translated message is trusted text, not markup; its variables are still data).",
+    "C06": "A third of the generated programs run their limit renders through render_async (block.super has an async getter of its own).",
+    "C07": "An earlier call / render that was handed the caller's variable leaves nothing behind for a later call of the same macro / partial that passes nothing.",
+    "C09": "Hand templates whose macro definitions differ only in a default value or body and are chosen by the data or the iteration; enumerated histories with an odd and an even number of analysis passes between renders over expressions that hold lists of sub-expressions (interpolated strings, array literals, when lists, filter arguments).",
+    "C12": "Cross-process pickle: templates pickled in the checking process are unpickled and rendered by another interpreter with another hash seed, where their partials are parsed afresh (cycle groups, counters, loop offsets shared with partials; a sample of the CTS templates).",
+    "C15": "A third of the cases render under auto-escape and messages contain markup characters (the catalog must be asked for the text as written, in both render modes); block comments written as line statements of a liquid tag; a comment attached to a message whose markup starts more than one line after the comment's last line is a violation.",
+}
+for _k, _v in _ROUND6.items():
+    EXTRA[_k] = (EXTRA[_k] + " " + _v) if _k in EXTRA else _v
